@@ -328,6 +328,10 @@ class _Gen:
                 else:
                     td.append(self.op_get(task, ctx=idx))
             op["td"] = td
+        if idx != 0 and not self.m.ctxs[idx].children and self.d.pct(20):
+            # the context object is dropped after it has been left while a late listener still holds its
+            # resource_added signal; contexts created afterwards may reuse its address
+            op["linger"] = True
         task.stack.pop()
         self.m.ctxs[idx].state = "closed"
         return op
@@ -608,6 +612,9 @@ class Interp:
         self.idle_streams: dict[int, list] = {}
         self.td_marks: dict[int, list[Any]] = {}  # ctx -> teardown markers observed
         self.failed_td: set[Any] = set()
+        self.failed_sigs: dict[int, list] = {}  # ctx -> [(name, types, is_factory, description of the failed call)]
+        self.lingering: list = []  # (idx, cm, iterator) of listeners that outlive their (dropped) context
+        self.dead_ids: set[int] = set()
         self.returned: dict[tuple[int, int, str], Any] = {}  # (ctx, t, name) -> serial first returned
         self.trace: list[Any] = []
         self.diverged = False
@@ -828,6 +835,19 @@ class Interp:
                 rc = Context(current_context())
             else:
                 rc = Context(self.real[parent]) if op["explicit"] else Context()
+                if self.dead_ids and id(rc) not in self.dead_ids:
+                    # try to get the new context allocated where a dropped one used to be
+                    pool = [rc]
+                    for _ in range(100):
+                        c2 = Context(self.real[parent]) if op["explicit"] else Context()
+                        if id(c2) in self.dead_ids:
+                            rc = c2
+                            break
+                        pool.append(c2)
+                    del pool
+            if id(rc) in self.dead_ids:
+                self.dead_ids.discard(id(rc))
+                self.labels.add("context-at-address-of-dropped-context")
         except Exception as exc:
             self.disc(["crash"], "Context()-raises", f"Context() raised {short_exc(exc)}")
             self.diverged = True
@@ -898,6 +918,19 @@ class Interp:
             got.append(ev)
         await cm.__aexit__(None, None, None)
         if self.diverged:
+            # the model stopped following the history, but one clause needs no model: a call that
+            # raised announces nothing
+            def tset_of(ev: Any) -> set:
+                return {TYPES.index(t) if t in TYPES else repr(t) for t in ev.resource_types}
+
+            for name, tset, fac, desc in self.failed_sigs.get(idx, []):
+                n_got = sum(1 for ev in got if ev.resource_name == name and bool(ev.is_factory) == fac and tset_of(ev) == tset)
+                n_exp = sum(1 for e in expected if e["name"] == name and e["factory"] == fac and e["types"] == tset)
+                if n_got > n_exp:
+                    self.disc(["event"], "failed-call-announced",
+                              f"context #{idx}: {desc} raised, yet a matching event was dispatched; got {[_fmt_ev(e) for e in got]}, "
+                              f"expected {[_fmt_exp(e) for e in expected]}")
+                    break
             return
         problems = []
         for i in range(max(len(got), len(expected))):
@@ -975,6 +1008,35 @@ class Interp:
                           f"teardown callback of a FAILED add_resource ({s}) ran when context #{idx} was left")
         if not self.diverged:
             self.check_views("leave", None, False, f"leaving context #{idx}")
+        if op and op.get("linger") and not self.diverged:
+            import weakref
+
+            cm = rc.resource_added.stream_events(max_queue_size=1000)
+            it = await cm.__aenter__()
+            self.lingering.append((idx, cm, it))
+            ref, old_id = weakref.ref(rc), id(rc)
+            self.real[idx] = None
+            del rc
+            if ref() is None:
+                self.labels.add("left-context-dropped-with-listener")
+                self.dead_ids.add(old_id)
+
+    async def check_lingering(self) -> None:
+        """Listeners of dropped contexts: nothing published elsewhere may reach them."""
+        for idx, cm, it in self.lingering:
+            got = []
+            with anyio.move_on_after(0.25):
+                while True:
+                    got.append(await it.__anext__())
+            try:
+                await cm.__aexit__(None, None, None)
+            except Exception:
+                pass
+            if got and not self.diverged:
+                self.disc(["event"], "foreign-delivery",
+                          f"a listener of context #{idx} (left and dropped before) received {[_fmt_ev(e) for e in got]}, "
+                          f"published on other contexts (sources {[e.source for e in got]!r})")
+        self.lingering.clear()
 
     def do_add(self, task: _Task, op: dict) -> None:
         from asphalt.core import ResourceConflict, add_resource
@@ -1047,6 +1109,8 @@ class Interp:
             self.n_fail += 1
             if td == "ok":
                 self.failed_td.add(serial)
+            if not op.get("bad_types"):
+                self.failed_sigs.setdefault(ctx, []).append((op["name"], set(op["types"] or [op["vcls"]]), False, desc))
             if not reasons:
                 cls = "conflict-spurious" if isinstance(exc, ResourceConflict) else "add-raised-unexpectedly"
                 self.disc(["conflict"], cls, f"{desc} raised {short_exc(exc)} but the model says it must succeed")
@@ -1110,6 +1174,8 @@ class Interp:
             self.check_views("addf", ctx, False, desc)
         else:
             self.n_fail += 1
+            if op["types"]:
+                self.failed_sigs.setdefault(ctx, []).append((op["name"], set(op["types"]), True, desc))
             if not reasons:
                 cls = "conflict-spurious" if isinstance(exc, ResourceConflict) else "addf-raised-unexpectedly"
                 self.disc(["conflict"], cls, f"{desc} raised {short_exc(exc)} but the model says it must succeed")
@@ -1348,10 +1414,13 @@ class Interp:
     async def force_leave(self, task: _Task, idx: int) -> None:
         task.stack.pop()
         self.m.ctxs[idx].state = "closed"
+        try:
+            await self.real[idx].__aexit__(None, None, None)
+        except Exception:
+            pass
         if idx in self.streams:
-            cm, it = self.streams.pop(idx)
             try:
-                await cm.__aexit__(None, None, None)
+                await self.drain(idx)
             except Exception:
                 pass
         for cm2 in self.idle_streams.pop(idx, []):
@@ -1359,10 +1428,6 @@ class Interp:
                 await cm2.__aexit__(None, None, None)
             except Exception:
                 pass
-        try:
-            await self.real[idx].__aexit__(None, None, None)
-        except Exception:
-            pass
 
     def note_escape(self, exc: BaseException) -> None:
         """Remember exceptions that come from harness code (they may get wrapped later)."""
@@ -1443,6 +1508,7 @@ class Interp:
                         await start_component(Comp, timeout=None)
                     else:
                         await body()
+                    await self.check_lingering()
                 await self.drain(0)
             finally:
                 done.set()
